@@ -1,12 +1,15 @@
-(* C03 — ignored characters never change the tokens around them.  Statements only.
-   (The other half of C03 — the token sequence equals the one of the October 2021 lexical
-   grammar — has no declarative grammar in this development yet; it is covered by the
-   correspondence check with hand-derived expectations, see DESIGN.md.)
+(* C03 — tokenisation conforms to the lexical grammar.  Statements only.
+   First part: ignored characters never change the tokens around them.  Second part (below):
+   numbers and names are read exactly as the lexical grammar of the specification says — the
+   grammar is stated declaratively in NumberGrammar.v (int_value, float_value, name_text,
+   follow_ok) and the reader is proved sound and complete for it.  Strings: C12's theorem and
+   the escape enumerations of the correspondence check; comments and block strings: the
+   correspondence check.
    LexIgnored.ignored w: w is a run of space, tab, comma, LF, CR and BOM.
    shape of a ReadToken result: token kind, token value, error class, the input left. *)
 From Coq Require Import List.
 From GQL.model Require Import Base Utf8 Lexer.
-From GQL.proofs Require Import LexIgnored.
+From GQL.proofs Require Import LexIgnored NumberGrammar.
 Import ListNotations.
 
 (* One ReadToken call from two lexer states whose unread inputs differ only by ignored
@@ -36,3 +39,63 @@ Example C03_nonvacuous :
      = option_map stream_shape (lex dev_none (b "a 1.5 ""x"""))
   /\ option_map stream_shape (lex dev_none (b "a 1.5 ""x""")) = Some ([(Name, b "a"); (Float, b "1.5"); (String_, b "x")], None).
 Proof. split; [repeat constructor|split; vm_compute; reflexivity]. Qed.
+
+(* ---- numbers and names against the grammar ----
+     IntegerPart    ::  -? ( 0 | NonZeroDigit Digit* )
+     FractionalPart ::  . Digit+
+     ExponentPart   ::  (e|E) (+|-)? Digit+
+     IntValue       ::  IntegerPart                            [not followed by Digit . NameStart]
+     FloatValue     ::  IntegerPart (Frac | Exp | Frac Exp)    [not followed by Digit . NameStart]
+     Name           ::  NameStart NameContinue*                [not followed by NameContinue]   *)
+
+(* completeness: every IntValue / FloatValue followed by something that may follow is read as one
+   token of that kind whose value is the text, and reading stops exactly behind it *)
+Theorem C03_int_complete : forall d v rest start ln ls, d F_L1 = false -> int_value v -> follow_ok rest ->
+  readNumber d (v ++ rest) start ln ls = mk_tok Int v rest start (start + zlen v)%Z ln ls.
+Proof. exact int_value_read. Qed.
+Print Assumptions C03_int_complete.
+
+Theorem C03_float_complete : forall d v rest start ln ls, d F_L1 = false -> float_value v -> follow_ok rest ->
+  readNumber d (v ++ rest) start ln ls = mk_tok Float v rest start (start + zlen v)%Z ln ls.
+Proof. exact float_value_read. Qed.
+Print Assumptions C03_float_complete.
+
+(* soundness: whenever the number reader returns a token, the token's text is an IntValue or a
+   FloatValue of the grammar (and the kind says which), the input is that text followed by what is
+   left, and what is left may follow a number *)
+Theorem C03_number_sound : forall d l start ln ls t s', d F_L1 = false ->
+  readNumber d l start ln ls = (t, None, s') ->
+  l = tval t ++ rest s' /\ follow_ok (rest s')
+  /\ ((tkind t = Int /\ int_value (tval t)) \/ (tkind t = Float /\ float_value (tval t))).
+Proof. exact number_sound. Qed.
+Print Assumptions C03_number_sound.
+
+(* ReadToken hands every text starting with '-' or a digit to the number reader *)
+Theorem C03_number_dispatch : forall d c l e ln ls, (c = 45%N \/ is_digit c = true) ->
+  readToken d (mkLx (c :: l) e ln ls) = Some (readNumber d (c :: l) e ln ls).
+Proof. exact number_dispatch. Qed.
+Print Assumptions C03_number_dispatch.
+
+(* names: complete and sound, through ReadToken *)
+Theorem C03_name_complete : forall d v rst e ln ls, name_text v -> noname_head rst ->
+  readToken d (mkLx (v ++ rst) e ln ls) = Some (mk_tok Name v rst e (e + zlen v)%Z ln ls).
+Proof. exact name_read. Qed.
+Print Assumptions C03_name_complete.
+
+Theorem C03_name_sound : forall d c l e ln ls t s', is_name_start c = true ->
+  readToken d (mkLx (c :: l) e ln ls) = Some (t, None, s') ->
+  tkind t = Name /\ name_text (tval t) /\ c :: l = tval t ++ rest s' /\ noname_head (rest s').
+Proof. exact name_sound. Qed.
+Print Assumptions C03_name_sound.
+
+Example C03_grammar_nonvacuous :
+  float_value (b "-12.50e+3") /\ int_value (b "-0") /\ follow_ok (b " x") /\ name_text (b "_a9")
+  /\ ~ follow_ok (b ".5") /\ ~ follow_ok (b "a").
+Proof.
+  split; [exists (b "-12"), (b ".50"), (b "e+3"); split; [reflexivity|]; split; [right; exists (b "12"); split; [reflexivity|apply (ui_nz 49 [50]); [reflexivity|discriminate|reflexivity]]|];
+          split; [right; exists (b "50"); repeat split; discriminate|]; split; [right; exists 101%N, [43%N], (b "3"); repeat split; auto; discriminate|left; discriminate]|].
+  split; [right; exists [48%N]; split; [reflexivity|constructor]|].
+  split; [cbn; repeat split; discriminate|].
+  split; [exists 95%N, (b "a9"); repeat split|].
+  split; [cbn; intros [_ [H _]]; apply H; reflexivity|cbn; intros [_ [_ H]]; discriminate].
+Qed.
